@@ -12,6 +12,7 @@ import Mathlib.Tactic.Linarith
 import Mathlib.Tactic.Abel
 import Mathlib.Algebra.Order.BigOperators.Group.Finset
 import Mathlib.Data.Real.Basic
+import Mathlib.LinearAlgebra.Matrix.DotProduct
 
 open Matrix
 
@@ -90,7 +91,22 @@ theorem nnls_kkt_optimal (A : Matrix (Fin m) (Fin n) ℝ) (b : Fin m → ℝ) (x
     linarith
   linarith
 
+/-- C14: data generated without noise, `b = A c₀`, are reproduced exactly by a least-squares solution
+(orthogonal residual): the residual vanishes, and at full column rank the estimated clp is `c₀`. -/
+theorem exact_data_recovered (A : Matrix (Fin m) (Fin n) ℝ) (b : Fin m → ℝ) (c₀ clp : Fin n → ℝ)
+    (hb : b = A *ᵥ c₀) (horth : Aᵀ *ᵥ (b - A *ᵥ clp) = 0) :
+    b - A *ᵥ clp = 0 ∧ ((∀ x, A *ᵥ x = 0 → x = 0) → clp = c₀) := by
+  have hr : b - A *ᵥ clp = A *ᵥ (c₀ - clp) := by rw [hb, Matrix.mulVec_sub]
+  have h0 : (b - A *ᵥ clp) ⬝ᵥ (b - A *ᵥ clp) = 0 := by
+    conv_lhs => rhs; rw [hr]
+    rw [dot_mulVec_eq, horth, dotProduct_zero]
+  have hres : b - A *ᵥ clp = 0 := dotProduct_self_eq_zero.mp h0
+  refine ⟨hres, fun hinj => ?_⟩
+  have := hinj (c₀ - clp) (by rw [← hr, hres])
+  exact (sub_eq_zero.mp this).symm
+
 end PyVC
 
 #print axioms PyVC.vp_minimises
 #print axioms PyVC.nnls_kkt_optimal
+#print axioms PyVC.exact_data_recovered
